@@ -40,7 +40,7 @@ def rand_perm(rng, n):
 
 def gen(R, n):
     """matrix as exact rationals of floats + kind tag"""
-    kind = R.rng.choice(["dyadic", "dyadic", "uniform", "generic", "scaled_dyadic", "conic_int", "scaled_generic", "scaled_uniform", "near_equal", "zero", "tiny_scaled", "light_overlap"])
+    kind = R.rng.choice(["dyadic", "dyadic", "uniform", "generic", "scaled_dyadic", "conic_int", "scaled_generic", "scaled_uniform", "near_equal", "zero", "tiny_scaled", "light_overlap", "scaled_light"])
     k = R.rng.randint(1, min(6, max(1, n * n // 2)))
     perms = [rand_perm(R.rng, n) for _ in range(k)]
     if kind == "tiny_scaled":
@@ -78,6 +78,23 @@ def gen(R, n):
         sums = {sum(r) for r in Xf} | {sum(Xf[i][j] for i in range(n)) for j in range(n)}
         if len(sums) != 1:
             # outside the property's domain (would be a generator slip, see DESIGN section 15): never hand it to the judge
+            return [[Fraction(0)] * n for _ in range(n)], "zero", True
+        return Xf, kind, False
+    if kind == "scaled_light":
+        # (round 6, C06-17) large common row sum (4096 .. 8192, inside the documented 1e4) carried by one or two heavy permutations, plus light
+        # permutations of weight 2^-18 / 2^-17 (3.8e-6, 7.6e-6): far above the absolute 1e-9 stop test and above the property's 1e-6, but
+        # below any threshold taken relative to the row sum.  Exactly representable in doubles.
+        X = [[Fraction(0)] * n for _ in range(n)]
+        for p in perms[:R.rng.randint(1, 2)]:
+            for i in range(n):
+                X[i][p[i]] += Fraction(4096)
+        for _ in range(R.rng.randint(1, 2)):
+            q = rand_perm(R.rng, n)
+            w = Fraction(1, 2 ** R.rng.choice([18, 17]))
+            for i in range(n):
+                X[i][q[i]] += w
+        Xf = [[Fraction(float(x)) for x in row] for row in X]
+        if Xf != X:
             return [[Fraction(0)] * n for _ in range(n)], "zero", True
         return Xf, kind, False
     if kind == "zero":
